@@ -192,6 +192,13 @@ def slice_(val: Any, start: Any, length: Any = 1) -> str | list[object]:
 
     _start = _slice_arg(start)
     _length = _slice_arg(length)
+
+    # A negative start index before the beginning of the sequence is out of
+    # range, like a positive one past the end. Don't let Python's slicing
+    # clamp it and cut `_length` items short from the wrong side.
+    if _start < -len(val):
+        return "" if isinstance(val, str) else []
+
     end: int | None = _start + _length
 
     # A negative start index and a length that exceeds the theoretical length
